@@ -421,18 +421,120 @@ def document_part(chk, rng, tmp: Path, mirror):
                 break
 
 
+def lockstep_part(chk, rng, tmp: Path):
+    """'indistinguishable when taken': the SAME sequence of operations applied to the original and to its clone gives the same
+    answers and the same saved document at every step (a clone that looks alike but carries other hidden state — flags, caches,
+    counters — behaves differently later).  Documents with user-set metadata, clones of the document and of its XML parts."""
+    import io
+
+    from odfdo import Document, Paragraph
+
+    def facts(doc):
+        m = doc.meta
+        return {"generator": m.generator, "title": m.title, "language": m.language, "editing_cycles": m.editing_cycles,
+                "user_defined": repr(sorted(m.user_defined_metadata.items(), key=repr)), "paragraphs": len(doc.body.get_paragraphs()) if doc.body is not None else None}
+
+    def saved(doc):
+        b = io.BytesIO()
+        doc.save(b)
+        names, got = pkg.read_zip(b.getvalue())
+        out = {n: pkg.canon(n, d) for n, d in got.items()}
+        # pkg.canon neutralises the generator stamp of meta.xml: the stamp itself is compared through facts()
+        return out
+
+    OPS = {
+        "set_generator_default": lambda d: d.meta.set_generator_default(),
+        "save": lambda d: saved(d),
+        "title": lambda d: setattr(d.meta, "title", "T2"),
+        "append": lambda d: d.body.append(Paragraph("lockstep")),
+        "user_meta": lambda d: d.meta.set_user_defined_metadata("k", 1),
+        "styles": lambda d: len(d.get_styles()),
+        "editing_cycles": lambda d: setattr(d.meta, "editing_cycles", (d.meta.editing_cycles or 0) + 1),
+        "generator": lambda d: setattr(d.meta, "generator", "Other 2.0"),
+    }
+    for _ in range(chk.n(60, 800)):
+        kind = rng.choice(["text", "spreadsheet", "presentation", "drawing", "sample"])
+        try:
+            if kind == "sample":
+                src = rng.choice(sorted(p for p in (core.REPO / "tests" / "samples").glob("*.od?") if p.stat().st_size < 200_000))
+                doc = Document(str(src))
+                origin = src.name
+            else:
+                doc = Document(kind)
+                origin = kind
+        except Exception:  # noqa: BLE001
+            continue
+        before = []
+        for k in rng.sample(["generator_user", "title", "user_meta", "read_body", "language"], rng.randrange(0, 4)):
+            before.append(k)
+            if k == "generator_user":
+                doc.meta.generator = "MyApp 1.0"          # a generator set by the user is kept by save
+            elif k == "title":
+                doc.meta.title = "T1"
+            elif k == "user_meta":
+                doc.meta.set_user_defined_metadata("u", True)
+            elif k == "read_body":
+                doc.body  # noqa: B018
+            else:
+                doc.meta.language = "fr-FR"
+        seq = [rng.choice(sorted(OPS)) for _k in range(rng.randint(1, 4))]
+        case = {"origin": origin, "before_clone": before, "same_operations_on_both": seq}
+        chk.case(("lockstep", origin, tuple(before), tuple(seq)), nontrivial=True, sample=case)
+        chk.count("clone of", "document (lockstep)")
+        try:
+            clone = doc.clone
+            twins = {"original": doc, "clone": clone}
+            # the clone of the meta part alone, against the part it was cloned from
+            mp, mc = doc.meta, doc.meta.clone
+            if (mp.generator, mp.title) != (mc.generator, mc.title):
+                chk.fail({**case, "clause": "equal-at-birth", "object": "Meta part"}, "the clone of the meta part reports other metadata")
+                continue
+            mc.set_generator_default()
+            probe = doc.meta.clone
+            probe2 = doc.clone.meta
+            probe2.set_generator_default()
+            if mc.generator != probe2.generator:
+                chk.fail({**case, "clause": "indistinguishable", "object": "Meta part", "part_clone": mc.generator, "document_clone": probe2.generator},
+                         "set_generator_default() on the clone of the meta part and on the meta part of a clone of the document give different generators")
+                continue
+            del probe
+            bad = None
+            if facts(doc) != facts(clone):
+                bad = ("birth", facts(doc), facts(clone))
+            for i, name in enumerate(seq):
+                if bad:
+                    break
+                ra = OPS[name](doc)
+                rb = OPS[name](clone)
+                chk.count("lockstep op", name)
+                if ra != rb:
+                    keys = sorted(k for k in set(ra) | set(rb) if ra.get(k) != rb.get(k)) if isinstance(ra, dict) and isinstance(rb, dict) else None
+                    bad = (f"answer of step {i} ({name})", keys or repr(ra)[:200], None if keys else repr(rb)[:200])
+                elif facts(doc) != facts(clone):
+                    bad = (f"after step {i} ({name})", facts(doc), facts(clone))
+            if bad:
+                chk.fail({**case, "clause": "indistinguishable", "where": bad[0], "original": bad[1], "clone": bad[2]},
+                         "the same operations applied to the original and to its clone give different results: the clone was not indistinguishable when taken")
+        except Exception as e:  # noqa: BLE001
+            chk.fail({**case, "exception": repr(e), "clause": "lockstep-raises"}, f"lockstep run raised {type(e).__name__}")
+
+
 def run(chk: core.Check) -> None:
     rng = chk.rng
     chk.rule = (
         "objects: tables after C01 histories (clone, clone of clone), rows and cells taken from them, whole documents after C03 histories from templates and "
         "samples opened by path / buffer / folder, their content part (XmlPart.clone); then 2..6 operations interleaved at random on the original and on the "
-        "clone, the untouched twin observed after each one, both twins checked against their own reference at the end. distinct by (source, history, interleaving)"
+        "clone, the untouched twin observed after each one, both twins checked against their own reference at the end; lockstep: documents with user-set metadata "
+        "(generator, title, language, user-defined), the SAME 1-4 operations (set_generator_default, save, metadata edits, appends, reads) applied to the original and "
+        "to its clone, answers, metadata and saved packages compared after each step, and the clone of the meta part against the meta part of a document clone. "
+        "distinct by (source, history, interleaving)"
     )
     tmp = Path(tempfile.mkdtemp(prefix="c10-", dir="/var/tmp"))
     mirror = pkg.Mirror()
     try:
         table_part(chk, rng)
         document_part(chk, rng, tmp, mirror)
+        lockstep_part(chk, rng, tmp)
         mirror.run(chk)
         reqs = [r for tr in HP for r in tr.reqs]
         answers = core.run_driver([q for q, _, _ in reqs])
